@@ -464,6 +464,11 @@ func (cc *connectStreamingClientConn) Receive(msg any) error {
 		cc.duplexCall.SetError(serverErr)
 		return serverErr
 	}
+	if errors.Is(err, io.EOF) && !errors.Is(err, errSpecialEnvelope) {
+		// The response body ended without an end-of-stream message: the stream
+		// was cut short, which must not look like a successful completion.
+		err = errorf(CodeInternal, "protocol error: stream ended without end-of-stream message: %w", io.ErrUnexpectedEOF)
+	}
 	// There's no error in the trailers, so this was probably an error
 	// converting the bytes to a message, an error reading from the network, or
 	// just an EOF. We're going to return it to the user, but we also want to
